@@ -329,7 +329,7 @@ class SSHConfig:
         """
         hosts = set()
         for entry in self._config:
-            hosts.update(entry["host"])
+            hosts.update(entry.get("host", []))
         return hosts
 
     def _pattern_matches(self, patterns, target):
